@@ -161,7 +161,11 @@ def inject(rnd, r):
             if not t["units"] or not t["refs"]:
                 return None
             j = rnd.randrange(len(t["units"]))
-            t["units"][j] = "cd" if t["units"][j] != "cd" else "mol"
+            u = t["units"][j]
+            if u and "^" not in u and rnd.random() < 0.5:
+                t["units"][j] = u + rnd.choice(["^2", "^-1", "^3"])      # same base unit, another exponent
+            else:
+                t["units"][j] = "cd" if u != "cd" else "mol"
         return (what, ("tags", i))
     i = rnd.randrange(len(r["mtags"]))
     t = r["mtags"][i]
